@@ -252,8 +252,19 @@ fn in_process_sequence(rep: &Report) {
             let sk = kestrel_crypto::PrivateKey::generate();
             let skb: [u8; 32] = sk.as_bytes().try_into().map_err(|_| "private key is not 32 bytes".to_string())?;
             let salt: [u8; 32] = kestrel_crypto::secure_random(32).try_into().map_err(|_| "secure_random(32) did not return 32 bytes".to_string())?;
-            // a cheap stand-in for the locked string keeps 70 scrypt calls out of the loop: lock only every 8th key for real
-            let locked = if i % 8 == 0 { kra::lock(&skb, b"pw", &salt) } else { r::b64(&[&r::SK_MAGIC[..], &salt[..], &[0u8; 48][..]].concat()) };
+            // real locks for the first 10 keys, under passwords whose lengths go down and up again (state kept between
+            // derivations on one thread must not leak from a longer password into a shorter one); later keys use a
+            // cheap stand-in for the locked string
+            let pws: [&[u8]; 10] = [b"pw1", b"a considerably longer passphrase than the first one", b"tiny", b"", b"mid-length pw", b"x", b"another rather long passphrase, longer than sixty-four bytes in total.", b"pw1", b"zz", b"a considerably longer passphrase than the first one"];
+            let locked = if i < 10 {
+                let l = kra::lock(&skb, pws[i], &salt);
+                if r::b64_decode(&l).and_then(|b| r::unlock_key(&b, pws[i])) != Some(skb) {
+                    return Err(format!("key {} generated in one thread: its locked string does not unlock (REF) to the key under its own password ({} bytes)", i + 1, pws[i].len()));
+                }
+                l
+            } else {
+                r::b64(&[&r::SK_MAGIC[..], &salt[..], &[0u8; 48][..]].concat())
+            };
             let pk = r::encode_pk(&r::x25519_base(&skb));
             Ok(kra::serialize_key(&format!("key-{}", i), &pk, &locked))
         });
@@ -290,6 +301,61 @@ fn in_process_sequence(rep: &Report) {
     rep.extra("in_process_generate_sequence", json!(n));
 }
 
+/// Names at the 128-byte limit typed at `key generate -o F` onto an existing keyring: the tool either refuses (F is left
+/// byte-for-byte intact) or appends a section after which F still parses and still contains every earlier key.
+fn limit_names(rep: &Report) {
+    use rayon::prelude::*;
+    let inits = initial_states(rep.seed);
+    let base = inits.iter().find(|i| i.0 == "keyring-with-trailing-newline").unwrap().1.clone().unwrap();
+    let names: Vec<String> = vec![
+        "\u{43a}".repeat(75),                       // 75 characters, 150 bytes
+        "\u{43a}".repeat(64),                       // 64 characters, 128 bytes (at the limit)
+        format!("{}a", "\u{e9}".repeat(64)),        // 65 characters, 129 bytes
+        "\u{20ac}".repeat(43),                      // 43 characters, 129 bytes
+        "\u{20ac}".repeat(42),                      // 126 bytes
+        "n".repeat(128),
+        "n".repeat(129),
+        format!("{}\u{1F511}", "n".repeat(125)),    // 129 bytes, the last character straddles the limit
+    ];
+    names.par_iter().for_each(|name| {
+        rep.eval(1);
+        rep.nontrivial(format!("limit-name-{}", name).as_bytes());
+        let attempt = || -> Result<(), String> {
+            let sc = Scratch::new();
+            sc.write("keys.txt", &base);
+            let out = proc::run(&Cmd::new(&["key", "generate", "-o", "keys.txt", "--env-pass"]).env("KESTREL_PASSWORD", "pw").stdin(format!("{}\n", name).as_bytes()), &sc.0);
+            out.well_behaved()?;
+            let after = sc.read("keys.txt").ok_or("keyring file missing")?;
+            if !out.ok() {
+                if after != base {
+                    return Err(format!("key generate refused a {}-character / {}-byte name but changed the keyring", name.chars().count(), name.len()));
+                }
+                return Ok(());
+            }
+            if !after.starts_with(&base) {
+                return Err("earlier contents are not a prefix".into());
+            }
+            let text = String::from_utf8(after).map_err(|_| "keyring not UTF-8".to_string())?;
+            match classify(&text) {
+                Class::WellFormed(es) if es.iter().any(|e| e.name == *name) && es.len() == 3 => {}
+                other => return Err(format!("after `key generate` accepted a {}-character / {}-byte name the keyring is no longer well-formed (REF: {:?}): every key in it is unusable", name.chars().count(), name.len(), match other { Class::WellFormed(e) => format!("{} entries", e.len()), Class::Bad(w) => w.to_string(), Class::Open => "open".into() })),
+            }
+            if kra::AVAILABLE {
+                if let Err(e) = kra::parse(&text) {
+                    return Err(format!("after `key generate` accepted a {}-character / {}-byte name the keyring no longer parses: {}", name.chars().count(), name.len(), e));
+                }
+            }
+            Ok(())
+        };
+        if attempt().is_err() {
+            if let Err(e) = attempt() {
+                rep.violation("limit-name", json!({"kind":"in-process","name":name}), e);
+            }
+        }
+    });
+    rep.extra("limit_names", json!(names.len()));
+}
+
 pub fn run(rep: &'static Report) {
     rep.set_rule("E-GRAPH over histories: breadth-first search (stateright) over initial keyring states x all sequences of <=2 (quick) / <=3 (thorough) `kestrel key generate -o F --env-pass` commands with distinct names from a 7-name alphabet (non-ASCII, with a space, a suffix of another, typed with surrounding whitespace, two names containing '=' with a common prefix) and 2 passwords; each state's last command is executed by the real CLI on the memoised file of its parent history, and the state invariant (prefix preserved, parses for the real parser and for REF, every generated key present, unlocks under its own password to the private key of its PublicKey, pre-existing entries kept) is checked. distinct non-trivial = histories with at least one generation");
     rep.rule_add("in-process sequence of 24/72 generations in one thread; keyring behind a symbolic link as an initial state.");
@@ -311,12 +377,14 @@ pub fn run(rep: &'static Report) {
     rep.extra("histories", json!({"initial_states":ctx.inits.iter().map(|i| i.0).collect::<Vec<_>>(),"max_generations":ctx.max_gens,"names":NAMES,"passwords":PASSWORDS,"states":states}));
     rep.sample(json!({"init":"keyring-without-trailing-newline","history":["generate name='k1' password=''","generate name='Zo\u{eb}' password='p\u{e4}'"],"expect":"old bytes are a prefix; 4 entries; both new keys unlock under their own passwords"}));
     in_process_sequence(rep);
+    limit_names(rep);
     rep.set_exhaustive(true);
 }
 
 pub fn replay(rep: &'static Report, case: &Value) {
     if case["kind"] == "in-process" {
         in_process_sequence(rep);
+        limit_names(rep);
         return;
     }
     let h = Hist { init: case["init"].as_u64().unwrap() as u8, gens: case["gens"].as_array().unwrap().iter().map(|g| (g[0].as_u64().unwrap() as u8, g[1].as_u64().unwrap() as u8)).collect() };
